@@ -383,11 +383,35 @@ def run_sub(check, sub, tier, seed, shard, nshards, known, budget_s=None):
     except BaseException as e:  # noqa: BLE001
         if isinstance(e, (KeyboardInterrupt, SystemExit)):
             raise
-        raise HarnessError(
-            f"{check.pid}/{sub.name} shard {shard}: {type(e).__name__}: {e}\n" + traceback.format_exc()
-        ) from None
+        where = _library_frame(e)
+        if where is None:
+            raise HarnessError(
+                f"{check.pid}/{sub.name} shard {shard}: {type(e).__name__}: {e}\n" + traceback.format_exc()
+            ) from None
+        # an exception that escaped from library code while the harness was turning a valid descriptor into library objects
+        # (outside every `under_test` block): the library cannot even represent the input the property quantifies over
+        sig = f"{check.pid}:crash:unguarded:{type(e).__name__}"
+        if sig in ctx.known:
+            raise HarnessError(f"{check.pid}/{sub.name}: unguarded crash listed as known finding ({sig})") from None
+        viol = {"sub": sub.name, "desc": ctx._cur, "signature": sig, "message": f"{type(e).__name__}: {e} raised in {where} while building / driving library objects for a valid case"}
     viols = list(enum_viols.values()) + ([viol] if viol else [])
     return ctx.summary(), viols
+
+
+def _library_frame(exc):
+    """'file:function' of the innermost traceback frame that belongs to the library under test, provided no frame of the
+    verification code lies deeper (then it is a harness bug); None otherwise."""
+    from vlib import boot
+
+    lib = os.path.realpath(os.path.join(boot.REPO, "perception_eval")) + os.sep
+    mine = os.path.realpath(ROOT) + os.sep
+    for fr in reversed(traceback.extract_tb(exc.__traceback__)):
+        fn = os.path.realpath(fr.filename)
+        if fn.startswith(lib):
+            return f"{os.path.basename(fr.filename)}:{fr.name}"
+        if fn.startswith(mine):
+            return None
+    return None
 
 
 def _run_fuzz(check, sub, tier, dseed, shard, nshards, ctx):
@@ -476,6 +500,13 @@ def run_replay_file(check, path, known):
         sub.body(ctx, rec["desc"])
     except PropertyViolation as e:
         return ctx, {"sub": sub.name, "desc": rec["desc"], "signature": e.signature, "message": e.message}
+    except HarnessError:
+        raise
+    except Exception as e:  # noqa: BLE001
+        where = _library_frame(e)
+        if where is None:
+            raise
+        return ctx, {"sub": sub.name, "desc": rec["desc"], "signature": f"{check.pid}:crash:unguarded:{type(e).__name__}", "message": f"{type(e).__name__}: {e} raised in {where} while replaying a valid case"}
     return ctx, None
 
 
